@@ -309,3 +309,34 @@ func TestC01Enum(t *testing.T) {
 	}
 	RunCases(t, propC01, "C01Enum", true, next)
 }
+
+// TestC01Crosstalk: "none of this is affected by traffic on other connections" with replies that take long enough to write
+// for the writes of different connections to overlap: 8-32 connections, three calls each, every reply a large document
+// naming its connection and call; in half of the cases every connection first has a reply attempt refused (parameters
+// that cannot be encoded). Each connection must receive exactly its own replies, in order.
+func TestC01Crosstalk(t *testing.T) {
+	cfgs := []concCfg{{"pipe", 16, 120000}, {"unix", 8, 600000}, {"unix", 32, 250000}, {"pipe", 8, 300000}}
+	if Thorough() {
+		cfgs = append(cfgs, concCfg{"unix", 64, 500000}, concCfg{"pipe", 32, 400000}, concCfg{"unix", 12, 2000000})
+	}
+	shard, nshards := Shard()
+	i := 0
+	next := func() (ProtoCase, bool) {
+		for i < len(cfgs)*2 {
+			k := i
+			i++
+			if k%nshards != shard {
+				continue
+			}
+			return concurrentBigCase(cfgs[k%len(cfgs)], k < len(cfgs), "C01Crosstalk"), true
+		}
+		return ProtoCase{}, false
+	}
+	p := propC01
+	p.Check = func(c ProtoCase, st *Stats) error {
+		_, err := ExecProto(c, 3*protoBound)
+		st.Case(HashOf(len(c.Conns)*1000003+len(c.Conns[0].Frames[0])), true, nil, "crosstalk-big-replies", "transport:"+c.Transport)
+		return err
+	}
+	RunCases(t, p, "C01Crosstalk", true, next)
+}
